@@ -4,6 +4,7 @@ package main
 // (DESIGN.md 3.5 "Calls", "Frames").
 
 import (
+	"strconv"
 	"os"
 	"fmt"
 	"go/token"
@@ -195,10 +196,12 @@ func cellOfFreeVar(fv *ssa.FreeVar) *ssa.Alloc {
 // DESIGN.md 3.7): which calls were executed, under which guard, in which order,
 // with which arguments and results.
 type callRec struct {
-	guard string
-	args  []V
-	res   V
-	seq   int
+	guard  string
+	args   []V
+	res    V
+	seq    int
+	callee *ssa.Function // nil for interface and function-value calls
+	pos    token.Pos
 }
 
 func (x *Exec) callCommon(fr *Frame, st *State, val ssa.Value, cc *ssa.CallCommon, pos token.Pos) V {
@@ -308,7 +311,7 @@ func (x *Exec) callCommon(fr *Frame, st *State, val ssa.Value, cc *ssa.CallCommo
 			fr.callLog = map[string]*callRec{}
 		}
 		fr.callSeq++
-		rec = &callRec{guard: st.guard, args: logArgs, seq: fr.callSeq}
+		rec = &callRec{guard: st.guard, args: logArgs, seq: fr.callSeq, callee: callee, pos: pos}
 		fr.callLog[fmt.Sprintf("%s#%d", name, ord)] = rec
 	}
 	x.atCall(fr, st, name, ord, callee, logArgs, pos)
@@ -510,6 +513,69 @@ func (x *Exec) callFunc(fr *Frame, st *State, callee *ssa.Function, bindings []V
 	// paths on which the callee panicked do not continue
 	x.assume(g, out.guard)
 	st.guard = g
+	// A helper without a contract is part of its caller's text as far as clauses about calls
+	// go: what it called is entered in the caller's call log under the same names, unless
+	// the caller has a call of that name and ordinal itself (extracting a few lines into a
+	// helper then leaves at-call, latch and called/argof/retof clauses meaningful).
+	if c == nil && len(sub.callLog) > 0 {
+		if fr.callLog == nil {
+			fr.callLog = map[string]*callRec{}
+		}
+		own := fr.callOrdOf
+		if own == nil {
+			own = sourceCallOrdinals(fr.fn)
+			fr.callOrdOf = own
+		}
+		var merged []string
+		ownKeys := map[string]bool{}
+		for cc, ord := range own {
+			n := ""
+			if cc.IsInvoke() {
+				n = cc.Method.Name()
+			} else {
+				switch cv := cc.Value.(type) {
+				case *ssa.Function:
+					n = funcKey(cv)
+				case *ssa.MakeClosure:
+					n = funcKey(cv.Fn.(*ssa.Function))
+				default:
+					n = funcValueName(cc.Value)
+				}
+			}
+			if n != "" {
+				ownKeys[fmt.Sprintf("%s#%d", n, ord)] = true
+			}
+		}
+		for k, rec := range sub.callLog {
+			if ownKeys[k] {
+				continue
+			}
+			if _, dup := fr.callLog[k]; dup {
+				continue
+			}
+			fr.callSeq++
+			fr.callLog[k] = &callRec{guard: rec.guard, args: rec.args, res: rec.res, seq: fr.callSeq, callee: rec.callee, pos: rec.pos}
+			merged = append(merged, k)
+		}
+		// at-call clauses of the caller about such a call are evaluated here, when the
+		// helper has returned, under the path condition of the call itself and with the
+		// call's own arguments (the caller's locals are those of the helper's call site)
+		sort.Strings(merged)
+		for _, k := range merged {
+			if fr.contract == nil || fr.contract.Calls[k] == nil {
+				continue
+			}
+			rec := fr.callLog[k]
+			i := strings.LastIndex(k, "#")
+			ord, err := strconv.Atoi(k[i+1:])
+			if err != nil {
+				continue
+			}
+			at := st.clone()
+			at.guard = rec.guard
+			x.atCall(fr, at, k[:i], ord, rec.callee, rec.args, rec.pos)
+		}
+	}
 	return x.packResults(rt, rs)
 }
 
